@@ -427,6 +427,9 @@ def native_contract(ccls, case, args_before, args_after, exc, ret):
     failed = []
     if exc is not None:
         declared = [k for k in raise_conds if isinstance(exc, k)]
+        may = tuple(getattr(ccls, "may_raise", ()) or ())
+        if not declared and may and isinstance(exc, may):
+            return failed        # the contract leaves open when these exceptions occur
         if not declared:
             failed.append(f"unexpected exception {type(exc).__name__}: {exc}"[:160])
         elif not _truth(raise_conds[declared[0]]):
